@@ -178,3 +178,12 @@ def universe_slice(level, step=1, offset=0, limit=None):
         if limit and len(out) >= limit:
             break
     return out
+
+
+def nested_slice(step=1, offset=0):
+    """programs of the nested-block universe (universe.U_block2), every step-th"""
+    out = []
+    for i, p in enumerate(U.enumerate_nested()):
+        if i % step == offset % step:
+            out.append(from_ast(p, "N#%d" % i))
+    return out
